@@ -67,6 +67,14 @@ def problems():
     out.append(("nlp-powell", lambda: Problem().minimize(((v - 0.3) ** 2).sum()), "Powell"))
     out.append(("nlp-cobyla", lambda: Problem().minimize((x - 1) ** 2 + (y - 0.5) ** 2).subject_to(x + y >= 1), "COBYLA"))
     out.append(("nlp-bfgs", lambda: Problem().minimize((x - 1) ** 2 + (y - 0.5) ** 2 + x * y * 0.1), "BFGS"))
+    # an objective accumulated in a loop (450 terms: the deep-tree code paths and whatever they do to the interpreter's limits), with a constraint
+    def deep():
+        obj = None
+        for k in range(450):
+            t = (1.0 + 0.5 * (k % 3)) * ((x if k % 2 else y) - 0.01 * (k % 7)) ** 2
+            obj = t if obj is None else obj + t
+        return Problem().minimize(obj).subject_to(x + y >= 1)
+    out.append(("nlp-deep-loop-built", deep, "SLSQP"))
     return out
 
 
